@@ -39,11 +39,13 @@ fn ref_text_op(v: &mut Vec<Elem>, op: &TextOp) {
         TextOp::Insert(i, s) => { let inherit = if *i > 0 { match &v[*i - 1] { Elem::Ch(_, a) | Elem::Embed(_, a) => a.clone() } } else { AttrMap::new() }; let new: Vec<Elem> = s.chars().map(|c| Elem::Ch(c, inherit.clone())).collect(); v.splice(*i..*i, new); }
         TextOp::InsertAttr(i, s, a) => { let am = attrs_of(a); let new: Vec<Elem> = s.chars().map(|c| Elem::Ch(c, am.clone())).collect(); v.splice(*i..*i, new); }
         TextOp::Embed(i, e) => { let inherit = if *i > 0 { match &v[*i - 1] { Elem::Ch(_, a) | Elem::Embed(_, a) => a.clone() } } else { AttrMap::new() }; v.insert(*i, Elem::Embed(print_any(e), inherit)); }
+        // an embedded shared type (a map) is an element like any other embed
+        TextOp::EmbedType(i) => { let inherit = if *i > 0 { match &v[*i - 1] { Elem::Ch(_, a) | Elem::Embed(_, a) => a.clone() } } else { AttrMap::new() }; v.insert(*i, Elem::Embed("YMap".into(), inherit)); }
         TextOp::Remove(i, n) => { v.drain(*i..*i + *n); }
         TextOp::Format(i, n, a) => { for e in v[*i..*i + *n].iter_mut() { let m = match e { Elem::Ch(_, m) | Elem::Embed(_, m) => m }; for (k, val) in a.iter() { if matches!(val, Any::Null) { m.remove(k.as_ref()); } else { m.insert(k.to_string(), print_any(val)); } } } }
     }
 }
-enum TextOp { Insert(usize, String), InsertAttr(usize, String, Attrs), Embed(usize, Any), Remove(usize, usize), Format(usize, usize, Attrs) }
+enum TextOp { Insert(usize, String), InsertAttr(usize, String, Attrs), Embed(usize, Any), EmbedType(usize), Remove(usize, usize), Format(usize, usize, Attrs) }
 
 fn rand_text_op(r: &mut Rng, v: &[Elem], rich: bool) -> TextOp {
     let n = v.len();
@@ -53,13 +55,15 @@ fn rand_text_op(r: &mut Rng, v: &[Elem], rich: bool) -> TextOp {
     else if c < 6 { TextOp::Insert(n, rand_chars(r)) }
     else if c < 7 { TextOp::InsertAttr(r.below(n as u64 + 1) as usize, rand_chars(r), rand_attr_arg(r)) }
     else if c < 9 { let i = r.below(n as u64) as usize; TextOp::Format(i, r.range(1, (n - i).min(5) as u64) as usize, rand_attr_arg(r)) }
-    else { TextOp::Embed(r.below(n as u64 + 1) as usize, rand_json_any(r)) }
+    else if r.chance(2, 3) { TextOp::Embed(r.below(n as u64 + 1) as usize, rand_json_any(r)) }
+    else { TextOp::EmbedType(r.below(n as u64 + 1) as usize) }
 }
 fn show_text_op(op: &TextOp, v: &[Elem], bytes: bool) -> String {
     match op {
         TextOp::Insert(i, s) => format!("insert({},{:?})", off(v, *i, bytes), s),
         TextOp::InsertAttr(i, s, a) => format!("insert_with_attributes({},{:?},{:?})", off(v, *i, bytes), s, attrs_of(a)),
         TextOp::Embed(i, e) => format!("insert_embed({},{})", off(v, *i, bytes), print_any(e)),
+        TextOp::EmbedType(i) => format!("insert_embed({},MapPrelim)", off(v, *i, bytes)),
         TextOp::Remove(i, n) => format!("remove_range({},{})", off(v, *i, bytes), off(v, *i + *n, bytes) - off(v, *i, bytes)),
         TextOp::Format(i, n, a) => format!("format({},{},{:?})", off(v, *i, bytes), off(v, *i + *n, bytes) - off(v, *i, bytes), a.iter().map(|(k, v)| format!("{}={}", k, print_any(v))).collect::<Vec<_>>()),
     }
@@ -69,6 +73,7 @@ fn apply_text_op<T: Text>(t: &T, txn: &mut TransactionMut, op: &TextOp, v: &[Ele
         TextOp::Insert(i, s) => t.insert(txn, off(v, *i, bytes), s),
         TextOp::InsertAttr(i, s, a) => t.insert_with_attributes(txn, off(v, *i, bytes), s, a.clone()),
         TextOp::Embed(i, e) => { t.insert_embed(txn, off(v, *i, bytes), e.clone()); }
+        TextOp::EmbedType(i) => { t.insert_embed(txn, off(v, *i, bytes), yrs::MapPrelim::default()); }
         TextOp::Remove(i, n) => t.remove_range(txn, off(v, *i, bytes), off(v, *i + *n, bytes) - off(v, *i, bytes)),
         TextOp::Format(i, n, a) => t.format(txn, off(v, *i, bytes), off(v, *i + *n, bytes) - off(v, *i, bytes), a.clone()),
     }
@@ -80,7 +85,7 @@ fn read_text<T: Text + GetString, R: ReadTxn>(t: &T, txn: &R, bytes: bool, issue
     let mut out = vec![]; let mut concat = String::new();
     for d in &chunks {
         let am = d.attributes.as_ref().map(|a| attrs_of(a)).unwrap_or_default();
-        match &d.insert { Out::Any(Any::String(s)) => { concat.push_str(s); for c in s.chars() { out.push(Elem::Ch(c, am.clone())); } } Out::Any(a) => out.push(Elem::Embed(print_any(a), am)), other => out.push(Elem::Embed(format!("{:?}", other), am)) }
+        match &d.insert { Out::Any(Any::String(s)) => { concat.push_str(s); for c in s.chars() { out.push(Elem::Ch(c, am.clone())); } } Out::Any(a) => out.push(Elem::Embed(print_any(a), am)), Out::YMap(_) => out.push(Elem::Embed("YMap".into(), am)), other => out.push(Elem::Embed(format!("{:?}", other), am)) }
     }
     // C17: read paths of a text
     let s = t.get_string(txn);
